@@ -250,7 +250,7 @@ package vm
 //@   modifies vmi.pg.sizer.crsrs, vmi.sizer.crsrs
 //@   modifies vmi.pg.sizer.sink, vmi.pg.sizer.memberSizes, vmi.pg.sizer.totalMemberSize, vmi.sizer.sink, vmi.sizer.memberSizes, vmi.sizer.totalMemberSize
 //@   ensures @menu fresh(vmi.mn) && vmi.pg.menu == vmi.mn && freshMenu(vmi) && fresh(vmi.pg.cacheMap) && vmi.pg.cacheMap != nil
-//@   ensures @page old(render.memOk(vmi.pg.cache)) && (vmi.sizer != nil ==> render.sizerOk(vmi.sizer)) && (vmi.pg.sizer != nil ==> render.sizerOk(vmi.pg.sizer)) ==> render.pageOk(vmi.pg)
+//@   ensures @page old(render.memOk(vmi.pg.cache)) && vmi.pg.resource != nil && (vmi.sizer != nil ==> render.sizerOk(vmi.sizer)) && (vmi.pg.sizer != nil ==> render.sizerOk(vmi.pg.sizer)) ==> render.pageOk(vmi.pg)
 //@   ensures[C05,C07] @unmapped unmapped(vmi)
 //@   ensures[C07] @separator vmi.menuSeparator != "" ==> vmi.mn.sep == vmi.menuSeparator
 //@   ensures @sizer (vmi.sizer != nil ==> vmi.pg.sizer == vmi.sizer) && (vmi.sizer == nil ==> vmi.pg.sizer == old(vmi.pg.sizer))
